@@ -4,6 +4,15 @@ import time, os, re
 from sm4lib import *
 
 
+def loop_safe_oracle():
+    seen = {}
+
+    def oracle(pc, cond):
+        seen[pc] = seen.get(pc, 0) + 1
+        return seen[pc] > 12       # not taken at first; taken after 12 visits so that a data-dependent loop terminates
+    return oracle
+
+
 def main():
     ck = Check('C09')
     thorough = ck.tier == 'thorough'
@@ -24,24 +33,24 @@ def main():
 
     for name, nb in (('cryptoBlockAsm', 1), ('cryptoBlockAsmX2', 2), ('cryptoBlockAsmX4', 4), ('cryptoBlockAsmX8', 8), ('cryptoBlockAsmX16', 16)):
         m.reset()
-        m.branch_oracle = lambda pc, cond: False     # a data-dependent branch is recorded as an event; execution goes on
+        m.branch_oracle = loop_safe_oracle()     # a data-dependent branch is recorded as an event; execution goes on
         m.run(name, {0: m.add_region('rk', [S8] * 128, False), 8: m.add_region('dst', [0] * (16 * nb)), 16: m.add_region('src', [S8] * (16 * nb), False)})
         nruns += 1
         note(name, m.events, dict(blocks=nb))
     m.reset()
-    m.branch_oracle = lambda pc, cond: False
+    m.branch_oracle = loop_safe_oracle()
     m.run('expandKeyAsm', {0: m.add_region('key', [S8] * 16, False), 8: m.add_region('enc', [0] * 128), 16: m.add_region('dec', [0] * 128)})
     note('expandKeyAsm', m.events, {})
     nruns += 1
     for cnt in (1, 4, 8, 9, 13):
         m.reset()
-        m.branch_oracle = lambda pc, cond: False
+        m.branch_oracle = loop_safe_oracle()
         m.run('gHashBlocks', {0: m.add_region('H', [S8] * 16, False), 8: m.add_region('tag', [S8] * 16), 16: m.add_region('data', [S8] * (16 * cnt), False), 24: cnt})
         note('gHashBlocks', m.events, dict(count=cnt))
         nruns += 1
     for n in (0, 1, 7, 8, 15, 16, 33):
         m.reset()
-        m.branch_oracle = lambda pc, cond: False
+        m.branch_oracle = loop_safe_oracle()
         m.run('copyAsm', {0: m.add_region('dst', [0] * n) if n else 0, 8: m.add_region('src', [S8] * n, False) if n else 0, 16: n})
         note('copyAsm', m.events, dict(n=n))
         nruns += 1
@@ -58,13 +67,20 @@ def main():
     ck.outside.append('data-dependent latency of individual instructions (micro-architecture); lengths above the listed bounds')
     for (nl, pl, al, ts) in tuples:
         m.reset()
-        m.branch_oracle = lambda pc, cond: False
+        m.branch_oracle = loop_safe_oracle()
         m.run('sealAsm', seal_args(m, None, [S8] * nl, [S8] * pl, [S8] * al, ts, rk=[S8] * 128))
         nruns += 1
         note('sealAsm', m.events, dict(nonce=nl, pt=pl, aad=al, tag=ts))
         for match in (True, False):
             m.reset()
-            m.branch_oracle = lambda pc, cond, match=match: not match
+            seen_pc = {}
+
+            def oracle(pc, cond, match=match, seen_pc=seen_pc):
+                # the verdict branch follows `match`; any other data-dependent branch (a finding) is followed the same way
+                # at first and the other way after 12 visits, so that a data-dependent loop terminates
+                seen_pc[pc] = seen_pc.get(pc, 0) + 1
+                return (not match) if seen_pc[pc] <= 12 else match
+            m.branch_oracle = oracle
             fr = open_args(m, None, [S8] * nl, [S8] * (pl + ts), [S8] * al, ts, rk=[S8] * 128)
             m.regions['temp'].cells = [S8] * 32
             m.run('openAsm', fr)
